@@ -178,6 +178,7 @@ def analyse(gen, res, modname):
     # extra queries may exhaust the resource limit.  A resource-limit message for a function that already has a
     # definite failed obligation adds nothing and must not turn the run into 'undecided'.
     failed_fns = {f['function'] for f in failures}
+    limit_fns = sorted({t.get('fn') for t in tool_errors if t.get('fn') and any(re.search(rx, t['message']) for rx in TOOL_LIMIT)})
     tool_errors = [t for t in tool_errors
                    if not (any(re.search(rx, t['message']) for rx in TOOL_LIMIT) and t.get('fn') in failed_fns)]
     limit = [t for t in tool_errors if any(re.search(rx, t['message']) for rx in TOOL_LIMIT)]
@@ -195,7 +196,7 @@ def analyse(gen, res, modname):
     return {'status': status, 'reason': reason, 'failures': failures, 'tool_errors': tool_errors,
             'verified': vr.get('verified'), 'errors': vr.get('errors'), 'stats': stats,
             'smt_ms': ((js.get('times-ms') or {}).get('smt') or {}).get('total'),
-            'verus_version': (js.get('verus') or {}).get('version'), 'limit_hits': len(limit)}
+            'verus_version': (js.get('verus') or {}).get('version'), 'limit_hits': len(limit), 'limit_fns': limit_fns}
 
 
 def run_template(name, repo_src, workdir, canary=True, rlimit=None):
@@ -262,7 +263,10 @@ def run_template(name, repo_src, workdir, canary=True, rlimit=None):
                 for s in d.get('spans', []):
                     info = gen_line_info(cg, s['line_start'])
                     ltxt = cg.lines[s['line_start'] - 1] if 1 <= s['line_start'] <= len(cg.lines) else ''
-                    if info and info.get('fn') and ('/*canary' in ltxt or info['fn'].startswith('canary:')):
+                    ml = re.search(r'/\*canary-loop: (\S+) \*/', ltxt)
+                    if ml:
+                        failing.add(ml.group(1))
+                    elif info and info.get('fn') and ('/*canary' in ltxt or info['fn'].startswith('canary:')):
                         failing.add(info['fn'])
             allf = [f['fn'] for f in cg.functions]
             # second source: Verus' own per-function verdict.  A function is vacuous only if Verus says it
@@ -272,6 +276,13 @@ def run_template(name, repo_src, workdir, canary=True, rlimit=None):
             def vac(fn):
                 if fn in failing:
                     return False
+                if '#loop' in fn:
+                    # a loop-body canary has no verdict of its own (the enclosing function always fails at its exit
+                    # canary): it counts as vacuous only if its assertion was not reported although Verus ran the
+                    # enclosing function to the end (no resource-limit message for it)
+                    encl = fn.split('#loop')[0]
+                    inconclusive = encl in can.get('limit_fns', []) or any(t.get('fn') == encl for t in can.get('tool_errors', []))
+                    return not inconclusive
                 name2 = fn.replace('canary:', 'canary_')
                 hits = [st for k, st in can['stats'].items() if k == name2 or k.endswith('::' + name2)]
                 if not hits:
